@@ -190,6 +190,9 @@ def install_default_models(e):
     e.external_values["math.pi"] = pi
     e.axioms.append(z3.And(pi > z3.RealVal("3.14159"), pi < z3.RealVal("3.1416")))
     e.external_handlers["logging.getLogger"] = x_getlogger
+    sin = e.get_uf("sin", [z3.RealSort()], z3.RealSort())
+    cos = e.get_uf("cos", [z3.RealSort()], z3.RealSort())
+    e.axioms.append(z3.And(sin(z3.RealVal(0)) == 0, cos(z3.RealVal(0)) == 1))
     e.opaque_handlers.update({"lock": h_lock, "rlock": h_lock, "logger": h_logger, "event": h_event,
                               "link_layer": h_link_layer, "callback": h_callback, "timer": h_timer,
                               "thread": h_thread})
